@@ -541,8 +541,24 @@ def input_verbatim(ctx, fx, ps, rule):
                 cons = n.kids[0]
             if cons is None or sp not in common.param_roots(cons):
                 continue
-            if any(x.kind == "call" and x.d["term"].get("name") in ("split", "next", "nth", "index", "get") for x in walk(cons)):
-                continue   # a part of the input (the JWT, a segment): judged by the position algebra / token-verbatim clauses
+            # only the raw input counts here: a part or a product of it (a `~` / `.` segment, a member of the parsed JSON object, a re-joined
+            # token, a decoded header) is judged by the position algebra / token-verbatim clauses
+            is_param = lambda x: x.kind == "param" and x.fn is V
+            part, stack_, seen_ = False, [cons], set()
+            while stack_ and not part:
+                x = stack_.pop()
+                if id(x) in seen_ or is_param(x):
+                    continue
+                seen_.add(id(x))
+                if x.kind in ("field", "variant", "agg", "index", "phi", "mut") and x.kind != "phi":
+                    part = True
+                elif x.kind == "call" and (x.d["term"].get("name") in ("split", "next", "nth", "index", "get", "from_str", "from_slice", "from_value", "format", "join", "concat", "collect", "next_back",
+                                                                       "split_once", "rsplit_once", "base64url_decode", "decode", "last", "first")
+                                           or x.d["term"].get("resolved_local")):
+                    part = True
+                stack_.extend(k for k in x.kids if k.kind != "cycle")
+            if part:
+                continue
             ncons += 1
             alt = common.not_verbatim(cons, lambda x: x.kind == "param" and x.fn is V)
             what = "input-verbatim:%s" % P.name.split("::")[-1]
